@@ -273,7 +273,7 @@ def layout_job(job):
     # an earlier overlapping one (flexible layouts with overlapping fields; array elements named twice through negative indices)
     kids = [(key, off, sub) for key, off, sub in fields_of(spec) if sub[0] in ("u", "s") and sub[1] > 0]
     if spec[0] in ("flex", "array", "struct") and kids:
-        rr = random.Random(hash(text) & 0xffff)
+        rr = random.Random(run.stable_hash(text) & 0xffff)
         seq = [rr.choice(kids) for _ in range(min(3, len(kids) + 1))]
         keys = []
         for j, (key, off, sub) in enumerate(seq):
